@@ -47,12 +47,12 @@ type c20Writer struct {
 
 func init() {
 	register(&Prop{ID: "C20", Run: c20Run,
-		Rule: "documents from the shared generator with empty containers / empty lists at every depth (PEmpty raised), obtained as freshly built, loaded via FromReader, FromMap, merged, cloned, sealed, and as two-layer overlays; read calls drawn from the whole read API with paths that exist, paths that do not, and list-index paths. reads: fingerprint (reflection incl. unexported fields, nil-vs-empty maps, slice len/cap) before/after every call. race: 16 goroutines x 3-8 random read calls on a fresh instance per round under `go build -race` (200 rounds quick, 5000 thorough). Non-trivial: the document has at least one composite child. distinct = distinct canonical case JSON.",
+		Rule: "documents from the shared generator with empty containers / empty lists at every depth (PEmpty raised), lists of 0-7 and 10-13 items built by successive Append calls (so lengths 3, 5, 6, 7, 10-13 have spare capacity), obtained as freshly built, loaded via FromReader, FromMap, merged (both list strategies), cloned, sealed, and as two-layer overlays whose upper layer is unrelated, a near copy of the lower one, or an addendum to it (below the same keys some lists overridden by 1-3 additional items, some scalars overridden); read calls drawn from the whole read API with paths that exist, paths that do not, and list-index paths, Merged with the default and the ListsMergeAppend option, plus ContainerBuilder.Merge(other, opts) with the document as receiver and as `other` (both strategies; other = unrelated / near copy / addendum). reads: fingerprint (reflection incl. unexported fields, nil-vs-empty maps, slice len/cap and the backing array between len and cap) before/after every call; every view handed out (merged view, layer snapshot, clone, merge result) is retained and must be unchanged after all later reads. race: 16 goroutines x 3-8 random read calls on a fresh instance per round under `go build -race` (200 rounds quick, 5000 thorough). Non-trivial: the document has at least one composite child. distinct = distinct canonical case JSON.",
 		Assumptions: []string{"the race detector only observes the schedules that occur; the schedule quantifier is carried by the write-freedom theorem over the extracted effect table",
 			"effect extractor rules (syntactic points-to, freshness, allow-list of external calls, caller-supplied callbacks do not write) are trusted and validated dynamically here",
 			"Go memory model and runtime"}})
 	evals["C20"] = c20Eval
-	shrinkers["C20"] = shrinkJSON
+	shrinkers["C20"] = c20Shrink
 }
 
 // ---------------------------------------------------------------- generation
@@ -61,7 +61,11 @@ func c20Gen() *DocGen {
 	g := stdGen()
 	g.PEmpty = 0.3
 	g.MaxDepth = 4
-	g.PLeaf = 0.45
+	g.PLeaf = 0.5
+	g.PList = 0.5
+	// lists of 1-7 items (and the shared generator's 10-13): every list is built by successive
+	// Append calls, so lengths 3, 5, 6, 7, 10-13 leave spare capacity in the backing array
+	g.ListMax = 7
 	return g
 }
 
@@ -92,8 +96,10 @@ func c20GenCalls(r *rand.Rand, g *DocGen, origin string, d1, d2 W, n int) []c20l
 	out := make([]c20lib.Call, 0, n)
 	for i := 0; i < n; i++ {
 		if origin == "overlay" {
-			c := c20lib.Call{M: pick(r, c20lib.OverlayMethods), Path: anyPath(), Layer: pick(r, []string{"zbase", "atop", "nolayer"})}
+			c := c20lib.Call{M: pick(r, c20OverlayCalls), Path: anyPath(), Layer: pick(r, []string{"zbase", "atop", "nolayer"})}
 			switch c.M {
+			case "OverlayDocument.Merged(append)":
+				c.M, c.Opt = "OverlayDocument.Merged", "append"
 			case "OverlayDocument.Search":
 				c.V = g.Scalar(r)
 			case "OverlayDocument.Serialize":
@@ -102,8 +108,28 @@ func c20GenCalls(r *rand.Rand, g *DocGen, origin string, d1, d2 W, n int) []c20l
 			out = append(out, c)
 			continue
 		}
-		c := c20lib.Call{M: pick(r, c20lib.ContainerMethods)}
+		c := c20lib.Call{M: pick(r, c20ContainerCalls)}
 		switch c.M {
+		case "ContainerBuilder.Merge":
+			// the other operand: a near copy of the document (same lists under the same keys), or unrelated
+			c.Opt = pick(r, []string{"", "append"})
+			switch r.Intn(4) {
+			case 0:
+				c.V = g.Doc(r)
+			case 1:
+				c.Path = anyPath()
+				c.V = g.Cont(r, 2)
+			case 2:
+				c.V = g.Mutate(r, d1)
+			default:
+				c.V = c20Addendum(r, g, d1)
+			}
+			if c.Path == "" && r.Intn(2) == 0 {
+				// the same merge again with another operand: the first result must survive it
+				out = append(out, c)
+				i++
+				c.V = c20Addendum(r, g, d1)
+			}
 		case "Container.Child":
 			c.Path = pick(r, g.Keys)
 			if r.Intn(3) == 0 {
@@ -129,7 +155,139 @@ func c20GenCalls(r *rand.Rand, g *DocGen, origin string, d1, d2 W, n int) []c20l
 	return out
 }
 
-var c20Origins = []string{"built", "loaded", "frommap", "merged", "cloned", "sealed", "overlay"}
+var c20Origins = []string{"built", "loaded", "frommap", "merged", "merged-append", "cloned", "sealed", "overlay", "overlay"}
+
+// the calls drawn for an overlay: its read methods, Merged once per list strategy
+var c20OverlayCalls = append(append([]string{}, c20lib.OverlayMethods...), "OverlayDocument.Merged(append)")
+
+// the calls drawn for a plain document: the read interfaces' methods plus the auxiliary read-only uses
+var c20ContainerCalls = append(append([]string{}, c20lib.ContainerMethods...), c20lib.AuxMethods...)
+
+// c20SpareListPair: somewhere below keys that are containers on both sides, the two documents hold a
+// list under the same key, the first with spare capacity when built by successive appends
+// (len not a power of two) and the second non-empty and short enough to fit that capacity: the
+// situation in which a list merge that re-used the first operand's backing array would write
+// into the document.
+func c20SpareListPair(a, b W) bool {
+	ca, oka := wireCont(a)
+	cb, okb := wireCont(b)
+	if !oka || !okb {
+		return false
+	}
+	for k, x := range ca {
+		y, ok := cb[k]
+		if !ok {
+			continue
+		}
+		lx, okx := x.([]any)
+		ly, oky := y.([]any)
+		if okx && oky {
+			capx := 1
+			for capx < len(lx) {
+				capx *= 2
+			}
+			if len(lx) > 0 && len(ly) > 0 && len(lx)+len(ly) <= capx {
+				return true
+			}
+			continue
+		}
+		if c20SpareListPair(x, y) {
+			return true
+		}
+	}
+	return false
+}
+
+// c20Addendum derives an upper layer / merge operand from d the way overlays are used: below the
+// same keys, some lists are overridden by a short list of additional items (1-3), some copied,
+// some scalars overridden, some keys left out, now and then a new key.
+func c20Addendum(r *rand.Rand, g *DocGen, d W) W {
+	c, ok := wireCont(d)
+	if !ok {
+		return deepCopyW(d)
+	}
+	out := map[string]any{}
+	for _, k := range sortedKeys(c) {
+		switch x := c[k].(type) {
+		case []any:
+			switch r.Intn(6) {
+			case 0:
+			case 1:
+				out[k] = deepCopyW(x)
+			default:
+				l := make([]any, 1+r.Intn(2)+r.Intn(2))
+				for i := range l {
+					l[i] = g.Node(r, g.MaxDepth-1)
+				}
+				out[k] = l
+			}
+		case map[string]any:
+			if _, isCont := x["m"]; isCont {
+				if r.Intn(4) > 0 {
+					out[k] = c20Addendum(r, g, x)
+				}
+			} else if r.Intn(3) == 0 {
+				out[k] = g.Scalar(r)
+			}
+		}
+	}
+	if r.Intn(3) == 0 {
+		out[pick(r, g.Keys)] = g.Node(r, 2)
+	}
+	return map[string]any{"m": out}
+}
+
+// c20Second: the second document of a merged / overlay origin.
+func c20Second(r *rand.Rand, g *DocGen, d1 W) W {
+	switch r.Intn(4) {
+	case 0:
+		return g.Doc(r)
+	case 1:
+		return g.Mutate(r, d1)
+	case 2:
+		return g.Mutate(r, c20Addendum(r, g, d1))
+	}
+	return c20Addendum(r, g, d1)
+}
+
+// c20Shrink: the generic JSON shrinker, preceded by list truncations (a list's length decides
+// the capacity of its backing array, so dropping one item at a time can get stuck).
+func c20Shrink(kind string, raw []byte) [][]byte {
+	var v any
+	if err := json.Unmarshal(raw, &v); err != nil {
+		return nil
+	}
+	var out [][]byte
+	var walk func(x any, set func(any))
+	walk = func(x any, set func(any)) {
+		switch t := x.(type) {
+		case []any:
+			for _, n := range []int{1, 3, 5} {
+				if len(t) > n {
+					set(append([]any{}, t[:n]...))
+					if b, err := json.Marshal(v); err == nil && len(b) < len(raw) {
+						out = append(out, b)
+					}
+					set(t)
+				}
+			}
+			for i := range t {
+				i := i
+				walk(t[i], func(n any) { t[i] = n })
+			}
+		case map[string]any:
+			for _, k := range sortedKeys(t) {
+				k := k
+				walk(t[k], func(n any) { t[k] = n })
+			}
+		}
+	}
+	walk(v, func(n any) { v = n })
+	if len(out) > 200 {
+		out = out[:200]
+	}
+	return append(out, shrinkJSON(kind, raw)...)
+}
 
 func c20Run(c *Ctx) {
 	r := c.Rng
@@ -140,11 +298,8 @@ func c20Run(c *Ctx) {
 		o := pick(r, c20Origins)
 		d1 := g.Doc(r)
 		var d2 W
-		if o == "merged" || o == "overlay" {
-			d2 = g.Mutate(r, d1)
-			if r.Intn(2) == 0 {
-				d2 = g.Doc(r)
-			}
+		if o == "merged" || o == "merged-append" || o == "overlay" {
+			d2 = c20Second(r, g, d1)
 		}
 		c.Do("reads", c20Reads{Origin: o, D1: d1, D2: d2, Calls: c20GenCalls(r, g, o, d1, d2, 2+r.Intn(6))})
 	}
@@ -180,8 +335,8 @@ func c20Run(c *Ctx) {
 		o := pick(r, c20Origins)
 		d1 := g.Doc(r)
 		var d2 W
-		if o == "merged" || o == "overlay" {
-			d2 = g.Mutate(r, d1)
+		if o == "merged" || o == "merged-append" || o == "overlay" {
+			d2 = c20Second(r, g, d1)
 		}
 		cs := c20lib.Case{Origin: o, D1: d1, D2: d2, Repeat: 2}
 		for gi := 0; gi < 16; gi++ {
@@ -382,6 +537,8 @@ func c20EvalAPI(c *Ctx) {
 		}
 	}
 	// every method the harness exercises is in the extractor's read API and vice versa
+	// (c20lib.AuxMethods — ContainerBuilder.Merge — is exercised in addition; it is not a method of
+	// the read interfaces and the extracted table makes no statement about it)
 	mine := map[string]bool{}
 	for _, m := range append(append([]string{}, c20lib.ContainerMethods...), c20lib.OverlayMethods...) {
 		mine[m] = true
@@ -414,15 +571,28 @@ func c20EvalReads(c *Ctx, p c20Reads) {
 	c.Dist("origin:" + p.Origin)
 	out, txt := guard(func() {
 		s := c20lib.Build(p.Origin, p.D1, p.D2)
+		s.Keep = true
 		subj := func() any {
 			if s.O != nil {
 				return s.O
 			}
 			return s.C
 		}
+		if s.O != nil && c20SpareListPair(p.D1, p.D2) {
+			c.Dist("overlay:same-key-lists-first-with-spare-capacity")
+			for _, call := range p.Calls {
+				if call.M == "OverlayDocument.Merged" && call.Opt == "append" {
+					c.Dist("overlay:Merged(append)-with-same-key-lists-first-with-spare-capacity")
+					break
+				}
+			}
+		}
 		before := c20lib.Fingerprint(subj())
 		for _, call := range p.Calls {
 			c.Dist("call:" + call.M)
+			if call.Opt != "" {
+				c.Dist("call:" + call.M + "(" + call.Opt + ")")
+			}
 			o1 := s.Exec(call)
 			after := c20lib.Fingerprint(subj())
 			c.Direct("fingerprint-unchanged("+call.M+")", before == after,
@@ -434,6 +604,13 @@ func c20EvalReads(c *Ctx, p c20Reads) {
 			if o1 != "nil" && o1 != "nil-target" && o1 != "not-applicable" {
 				c.Dist("call-effective")
 			}
+		}
+		// what a read handed out earlier (merged view, layer snapshot, clone, merge result) is an
+		// observation too: no later read may have changed it
+		changed := s.ChangedViews()
+		c.Direct("returned-views-unchanged-by-later-reads", len(changed) == 0, map[string]any{"changed": changed, "views": s.Views()})
+		if s.Views() > 1 {
+			c.Dist("reads:several-views-retained")
 		}
 		// a second, identically built instance observes the same (content is a function of the input)
 		s2 := c20lib.Build(p.Origin, p.D1, p.D2)
